@@ -120,8 +120,15 @@ def l3_superposition(chk, ctx, rng, n, tier):
         a, b = float(rng.uniform(-2, 3)), float(rng.uniform(-2, 3))
         if a * th1 + b * th2 < 0:          # the drivers reject a negative theta0: keep the combination admissible
             a, b = abs(a), abs(b)
+        # degenerate members of the family, where a shortcut on "nothing to do" would go wrong: a zero density with theta0 != 0
+        # ((phi, th) = (phi, 0) + (0, th)), and a combination whose densities cancel exactly while the mutation rates do not
+        shape = ['generic', 'zero-density', 'cancelling', 'generic'][(it // 5) % 4]
+        if shape == 'zero-density':
+            phi2 = np.zeros_like(phi1); th1 = 0.0; a, b = 1.0, 1.0; th2 = max(th2, 0.1)
+        elif shape == 'cancelling':
+            phi2 = phi1.copy(); a, b = 1.0, -1.0; th1, th2 = max(th1, th2) + 0.5, min(th1, th2)
         T = float(rng.uniform(0.005, 0.05))
-        varying = bool(it % 2)
+        varying = bool((it + it // 5) % 2)
         def run(phi, theta):
             kw = kwargs_for(d, nus, ms, gammas, hs, theta, fr, nm)
             if varying:
@@ -130,9 +137,9 @@ def l3_superposition(chk, ctx, rng, n, tier):
                 if isinstance(theta, float):
                     kw['theta0'] = (lambda t, v=theta: v * (1 + 0.2 * t))
             return integrate(dadi, d, phi, xx, T, **kw)        # the caller's arrays are passed as they are (and re-used below)
-        key = 'superposition:%dD:varying=%s' % (d, varying)
+        key = 'superposition:%dD:varying=%s:%s' % (d, varying, shape)
         chk.l3((key, tuple(fr), tuple(nm)))
-        inp = dict(d=d, pts=pts, nus=nus, ms=str(ms), gammas=gammas, hs=hs, frozen=fr, nomut=nm, th1=th1, th2=th2, a=a, b=b, T=T, varying=varying)
+        inp = dict(d=d, pts=pts, nus=nus, ms=str(ms), gammas=gammas, hs=hs, frozen=fr, nomut=nm, th1=th1, th2=th2, a=a, b=b, T=T, varying=varying, shape=shape)
         try:
             r1 = run(phi1, th1); r2 = run(phi2, th2)
             r12 = run(a * phi1 + b * phi2, a * th1 + b * th2)   # built from the same phi1, phi2 after they were integrated
